@@ -684,6 +684,477 @@ theorem fold_inv (ops : List Op) : ∀ s, Inv c keep s → Inv c keep (ops.foldl
 
 theorem run_inv (ops : List Op) : Inv c keep (run c keep ops) := fold_inv c keep ops init (inv_init c keep)
 
+/-! ### the transmission inside the collector state -/
+
+section txpres
+variable (P : Tx → Prop) (hE : ∀ t d e, P t → P (t.enqueue c d e).1)
+include hE
+
+theorem handAll_tx (sps : List Span) : ∀ s : St, P s.tx → P (handAll c s sps).tx := by
+  induction sps with
+  | nil => intro s h; exact h
+  | cons a l ih => intro s h; exact ih _ (hE _ _ _ h)
+
+theorem processK_tx (s : St) (w : Nat) (sp : Span) (h : P s.tx) : P (processK c keep s w sp).1.tx := by
+  unfold processK
+  split
+  · exact h
+  · split
+    · split
+      · exact hE _ _ _ h
+      · exact h
+    · exact h
+
+theorem processAll_tx (l : List (Nat × Span)) : ∀ s : St, P s.tx → P (processAll c keep s l).tx := by
+  induction l with
+  | nil => intro s h; exact h
+  | cons a l ih => intro s h; exact ih _ (processK_tx c keep P hE s a.1 a.2 h)
+
+theorem stopBody_tx (s : St) (h : P s.tx) : P (stopBody c keep s).tx := by
+  have h1 : P (stopPeer c keep s).tx := processAll_tx c keep P hE _ _ h
+  have h2 : P (stopIn c keep (stopPeer c keep s)).tx := by
+    unfold stopIn; split
+    · exact processAll_tx c keep P hE _ _ h1
+    · exact h1
+  have h3 : P (stopBuf c keep (stopIn c keep (stopPeer c keep s))).tx := by
+    unfold stopBuf; split
+    · exact h2
+    · exact h2
+  exact handAll_tx c P hE _ _ h3
+
+theorem step_tx (hT : ∀ t ns, P t → P (t.tick c ns)) (hS : ∀ t, P t → P t.stop) (s : St) (o : Op)
+    (h : P s.tx) : P (step c keep s o).1.tx := by
+  cases o with
+  | span dt w peer sp =>
+    show P (spanOp c keep s dt w peer sp).1.tx
+    unfold spanOp
+    split
+    · exact h
+    · split
+      · cases peer <;> exact h
+      · exact processK_tx c keep P hE _ _ _ h
+  | hold w => simp only [step]; split <;> exact h
+  | tick ns => show P (tick keep s ns).tx; unfold tick; split <;> exact h
+  | fwd =>
+    simp only [step]
+    cases hts : s.toSend with
+    | nil => exact h
+    | cons t r =>
+      show P (fwdOne c s).tx
+      unfold fwdOne; rw [hts]
+      exact handAll_tx c P hE _ _ h
+  | ev sid dest => exact hE _ _ _ h
+  | txtick ns => exact hT _ _ h
+  | stop =>
+    simp only [step]; split
+    · exact h
+    · exact stopBody_tx c keep P hE s h
+  | txstop => exact hS _ h
+
+theorem fold_tx (hT : ∀ t ns, P t → P (t.tick c ns)) (hS : ∀ t, P t → P t.stop) (ops : List Op) :
+    ∀ s : St, P s.tx → P (ops.foldl (fun s o => (step c keep s o).1) s).tx := by
+  induction ops with
+  | nil => intro s h; exact h
+  | cons o l ih => intro s h; exact ih _ (step_tx c keep P hE hT hS s o h)
+
+end txpres
+
+theorem run_txinv (ops : List Op) : TxInv (run c keep ops).tx :=
+  fold_tx c keep TxInv (fun t d e h => txinv_enqueue c t d e h) (fun t ns h => txinv_tick c t ns h)
+    (fun t h => txinv_stop t h) ops init txinv_init
+
+theorem enqueue_stopped (t : Tx) (d e : Nat) (h : t.stopped = true) : (t.enqueue c d e).1.stopped = true := by
+  unfold Tx.enqueue; rw [if_pos h]; split <;> exact h
+
+theorem tick_stopped (t : Tx) (ns : Nat) (h : t.stopped = true) : (t.tick c ns).stopped = true := by
+  unfold Tx.tick; rw [if_pos h]; exact h
+
+theorem stop_keeps_stopped (t : Tx) (_ : t.stopped = true) : t.stop.stopped = true := stop_stopped t
+
 end collector
+
+/-! ## The property -/
+
+/-- **stop_decides_all**, full strength: whatever has happened before, once `Stop` has been
+requested no worker has anything left (queues, buffers and `tracesToSend` are empty) and every
+span the collector accepted has its outcome: it was handed to the transmission iff the sampler
+keeps its trace. -/
+def StopDecidesAll (fixed : Bool) : Prop :=
+  ∀ (c : Cfg) (keep : Nat → Bool) (ops : List Op), c.fixed = fixed →
+    (run c keep (ops ++ [.stop])).buf = [] ∧ (run c keep (ops ++ [.stop])).qIn = [] ∧
+    (run c keep (ops ++ [.stop])).qPeer = [] ∧ (run c keep (ops ++ [.stop])).toSend = [] ∧
+    ∀ x ∈ (run c keep (ops ++ [.stop])).accepted,
+      (x ∈ (run c keep (ops ++ [.stop])).handed ↔ keep x.tid = true)
+
+/-- the statement for the code as it is -/
+def FullStatement : Prop := StopDecidesAll false
+
+theorem stop_sets_stopped (c : Cfg) (keep : Nat → Bool) (s : St) : (step c keep s .stop).1.stopped = true := by
+  simp only [step]
+  by_cases h : s.stopped = true
+  · rw [if_pos h]; exact h
+  · rw [if_neg h]; rfl
+
+/-- a stopped collector with empty buffers and nothing lost has decided everything -/
+theorem decided_of_clean {c : Cfg} {keep : Nat → Bool} {s : St} (hi : Inv c keep s) (hs : s.stopped = true)
+    (hb : s.buf = []) (hl : s.lost = []) :
+    s.buf = [] ∧ s.qIn = [] ∧ s.qPeer = [] ∧ s.toSend = [] ∧
+    ∀ x ∈ s.accepted, (x ∈ s.handed ↔ keep x.tid = true) := by
+  obtain ⟨hq, hp, ht, _⟩ := hi.stopped hs
+  refine ⟨hb, hq, hp, ht, ?_⟩
+  intro x hx
+  have hsw := hi.acc x hx
+  unfold Somewhere at hsw
+  rw [hq, hp, hb, ht, hl] at hsw
+  constructor
+  · exact hi.good.handed x
+  · intro hk
+    rcases hsw with ⟨_, h, _⟩ | ⟨_, h, _⟩ | ⟨_, h, _⟩ | ⟨_, h, _⟩ | h | h | h
+    · cases h
+    · cases h
+    · cases h
+    · cases h
+    · exact h
+    · have := hi.good.disc x h; rw [hk] at this; cases this
+    · cases h
+
+/-- **stop_decides_all (repaired collector)** — with the proposed fix (every worker drains both of
+its queues and decides every trace it has buffered before it exits) the full statement holds for
+every history, sampler and configuration. -/
+theorem stop_decides_all_fixed : StopDecidesAll true := by
+  intro c keep ops hf
+  have hi := run_inv c keep (ops ++ [.stop])
+  have hs : (run c keep (ops ++ [.stop])).stopped = true := by
+    rw [run_snoc]; exact stop_sets_stopped c keep _
+  exact decided_of_clean hi hs ((hi.stopped hs).2.2.2 hf) (hi.lost hf)
+
+/-- the witness: one span of a trace the sampler keeps arrives, then `Stop` -/
+def witnessOps : List Op := [.span 1 0 false { sid := 1, tid := 1, dest := 0, root := true }, .stop]
+
+/-- **stop_decides_all is refuted for the code as it is**: a buffered trace the sampler would keep
+is still buffered and undecided after `Stop`, its span is never handed to the transmission —
+contradicting "all in-flight traces will be flushed (sent upstream to Honeycomb)". -/
+theorem stop_decides_all_refuted : ¬ FullStatement := by
+  intro h
+  have := (h {} (fun _ => true) [.span 1 0 false { sid := 1, tid := 1, dest := 0, root := true }] rfl).1
+  revert this
+  decide
+
+/-- the same history under the repaired collector: decided, forwarded, dispatched on `txstop` -/
+example : (run { fixed := true } (fun _ => true) witnessOps).buf = [] ∧
+    (run { fixed := true } (fun _ => true) witnessOps).handed = [{ sid := 1, tid := 1, dest := 0, root := true }] := by
+  decide
+
+/-- second witness class: a span accepted while its worker is busy is still in `incoming` when
+`Stop` closes the channel and is never read — even when its trace has already been decided `keep` -/
+theorem queued_span_lost_witness :
+    ∃ (c : Cfg) (keep : Nat → Bool) (ops : List Op) (x : Span), c.fixed = false ∧
+      x ∈ (run c keep (ops ++ [.stop])).accepted ∧ keep x.tid = true ∧
+      x ∉ (run c keep (ops ++ [.stop])).handed ∧ x ∈ (run c keep (ops ++ [.stop])).lost :=
+  ⟨{ nw := 2 }, fun _ => true, [.hold 0, .span 1 0 false { sid := 1, tid := 1, dest := 0, root := false }],
+    { sid := 1, tid := 1, dest := 0, root := false }, rfl, by decide, rfl, by decide, by decide⟩
+
+section partial_
+variable (c : Cfg) (keep : Nat → Bool)
+
+theorem nostop_fold (ops : List Op) (hns : Op.stop ∉ ops) : ∀ s : St, s.stopped = false → s.lost = [] →
+    (ops.foldl (fun s o => (step c keep s o).1) s).stopped = false ∧
+    (ops.foldl (fun s o => (step c keep s o).1) s).lost = [] := by
+  induction ops with
+  | nil => intro s h1 h2; exact ⟨h1, h2⟩
+  | cons o l ih =>
+    intro s h1 h2
+    have hne : o ≠ .stop := fun h => hns (by simp [h])
+    have hl : Op.stop ∉ l := fun h => hns (by simp [h])
+    have hs : s.stopped ≠ true := by simp [h1]
+    apply ih hl
+    · cases o with
+      | span dt w peer sp =>
+        show (spanOp c keep s dt w peer sp).1.stopped = false
+        unfold spanOp; rw [if_neg hs]
+        split
+        · cases peer <;> exact h1
+        · exact (frame_stopped (processK_pres c keep _ w sp).2.2.1).trans h1
+      | hold w => simp only [step]; split <;> exact h1
+      | tick ns => exact (frame_stopped (tick_pres keep s ns).2).trans h1
+      | fwd =>
+        simp only [step]
+        cases hts : s.toSend with
+        | nil => exact h1
+        | cons t r =>
+          show (fwdOne c s).stopped = false
+          unfold fwdOne; rw [hts]
+          have hh : ∀ (sps : List Span) (s' : St), (handAll c s' sps).stopped = s'.stopped := by
+            intro sps; induction sps with
+            | nil => intro s'; rfl
+            | cons a l ih => intro s'; exact ih (hand c s' a)
+          rw [hh]; exact h1
+      | ev sid dest => exact h1
+      | txtick ns => exact h1
+      | stop => exact absurd rfl hne
+      | txstop => exact h1
+    · cases o with
+      | span dt w peer sp =>
+        show (spanOp c keep s dt w peer sp).1.lost = []
+        unfold spanOp; rw [if_neg hs]
+        split
+        · cases peer <;> exact h2
+        · exact (frame_lost (processK_pres c keep _ w sp).2.2.1).trans h2
+      | hold w => simp only [step]; split <;> exact h2
+      | tick ns => exact (frame_lost (tick_pres keep s ns).2).trans h2
+      | fwd =>
+        simp only [step]
+        cases hts : s.toSend with
+        | nil => exact h2
+        | cons t r =>
+          show (fwdOne c s).lost = []
+          unfold fwdOne; rw [hts]
+          have hh : ∀ (sps : List Span) (s' : St), (handAll c s' sps).lost = s'.lost := by
+            intro sps; induction sps with
+            | nil => intro s'; rfl
+            | cons a l ih => intro s'; exact ih (hand c s' a)
+          rw [hh]; exact h2
+      | ev sid dest => exact h2
+      | txtick ns => exact h2
+      | stop => exact absurd rfl hne
+      | txstop => exact h2
+
+theorem stopBody_clean (s : St) (g : Good keep s) (hf : c.fixed = false) (hb : s.buf = []) (hq : s.qIn = [])
+    (hp : s.qPeer = []) : (stopBody c keep s).buf = [] ∧ (stopBody c keep s).lost = s.lost := by
+  have hf' : ¬ c.fixed = true := by simp [hf]
+  have h1 : stopPeer c keep s = { s with qPeer := [] } := by unfold stopPeer; rw [hp]; rfl
+  have h2 : stopIn c keep (stopPeer c keep s) = { s with qPeer := [], qIn := [], lost := s.lost ++ [] } := by
+    unfold stopIn; rw [if_neg hf', h1]; simp [hq]
+  have h3 : stopBuf c keep (stopIn c keep (stopPeer c keep s)) = stopIn c keep (stopPeer c keep s) := by
+    unfold stopBuf; rw [if_neg hf']
+  obtain ⟨p1, _⟩ := stopPeer_spec c keep s
+  obtain ⟨p2, _⟩ := stopIn_spec c keep (stopPeer c keep s)
+  obtain ⟨p3, _⟩ := stopBuf_spec c keep (stopIn c keep (stopPeer c keep s))
+  obtain ⟨_, f4, b4, _⟩ := drain_pres c keep _ (p3.good (p2.good (p1.good g)))
+  have fl := frame_lost f4
+  unfold stopBody
+  refine ⟨?_, ?_⟩
+  · show (drain c (stopBuf c keep (stopIn c keep (stopPeer c keep s)))).buf = []
+    rw [b4, h3, h2]; exact hb
+  · show (drain c (stopBuf c keep (stopIn c keep (stopPeer c keep s)))).lost = s.lost
+    rw [fl, h3, h2]; simp
+
+/-- **stop_decides_all, the part that holds for the code as it is** — if at the moment `Stop` is
+requested (for the first time) no trace is buffered and no span is waiting in a worker's queue,
+then afterwards every accepted span has its outcome (forwarded iff kept); in particular
+everything already decided and waiting in `tracesToSend` is forwarded before `Stop` returns. -/
+theorem stop_decides_all_partial (ops : List Op) (hf : c.fixed = false) (hns : Op.stop ∉ ops)
+    (hb : (run c keep ops).buf = []) (hq : (run c keep ops).qIn = []) (hp : (run c keep ops).qPeer = []) :
+    (run c keep (ops ++ [.stop])).buf = [] ∧ (run c keep (ops ++ [.stop])).qIn = [] ∧
+    (run c keep (ops ++ [.stop])).qPeer = [] ∧ (run c keep (ops ++ [.stop])).toSend = [] ∧
+    ∀ x ∈ (run c keep (ops ++ [.stop])).accepted,
+      (x ∈ (run c keep (ops ++ [.stop])).handed ↔ keep x.tid = true) := by
+  have hi := run_inv c keep (ops ++ [.stop])
+  have hs : (run c keep (ops ++ [.stop])).stopped = true := by
+    rw [run_snoc]; exact stop_sets_stopped c keep _
+  obtain ⟨h0, hl0⟩ := nostop_fold c keep ops hns init rfl rfl
+  have h0' : ¬ (run c keep ops).stopped = true := by
+    intro h; unfold run at h; rw [h0] at h; cases h
+  have hbody : run c keep (ops ++ [.stop]) = stopBody c keep (run c keep ops) := by
+    rw [run_snoc]; simp only [step]; rw [if_neg h0']
+  obtain ⟨cb, cl⟩ := stopBody_clean c keep (run c keep ops) (run_inv c keep ops).good hf hb hq hp
+  apply decided_of_clean hi hs
+  · rw [hbody]; exact cb
+  · rw [hbody, cl]; exact hl0
+
+theorem handAll_hands (sps : List Span) : ∀ (s : St), (∀ x ∈ sps, x ∈ (handAll c s sps).handed) ∧
+    (∀ x ∈ s.handed, x ∈ (handAll c s sps).handed) := by
+  induction sps with
+  | nil => intro s; exact ⟨by simp, fun x h => h⟩
+  | cons a l ih =>
+    intro s
+    obtain ⟨h1, h2⟩ := ih (hand c s a)
+    refine ⟨?_, fun x hx => h2 x (by simp [hand, hx])⟩
+    intro x hx
+    rcases List.mem_cons.mp hx with rfl | hx
+    · exact h2 _ (by simp [hand])
+    · exact h1 x hx
+
+theorem stop_toSend_mono (s : St) (t : Trace) (ht : t ∈ s.toSend) :
+    t ∈ (stopBuf c keep (stopIn c keep (stopPeer c keep s))).toSend := by
+  have e1 : (stopPeer c keep s).toSend = s.toSend := by
+    unfold stopPeer; exact (processAll_pres c keep _ _).2.2.2
+  have e2 : (stopIn c keep (stopPeer c keep s)).toSend = s.toSend := by
+    unfold stopIn; split
+    · exact ((processAll_pres c keep _ _).2.2.2).trans e1
+    · exact e1
+  unfold stopBuf; split
+  · simp only [decideTraces, List.mem_append]; left; rw [e2]; exact ht
+  · rw [e2]; exact ht
+
+/-- **traces already in `tracesToSend` are sent** (code as it is and repaired): whatever happened
+before, after `Stop` the queue of decided traces is empty and every span of every trace that was
+waiting in it has been handed to the transmission. -/
+theorem stop_sends_decided_partial (ops : List Op) :
+    (run c keep (ops ++ [.stop])).toSend = [] ∧
+    ∀ t ∈ (run c keep ops).toSend, ∀ x ∈ t.spans, x ∈ (run c keep (ops ++ [.stop])).handed := by
+  have hi := run_inv c keep (ops ++ [.stop])
+  have hs : (run c keep (ops ++ [.stop])).stopped = true := by
+    rw [run_snoc]; exact stop_sets_stopped c keep _
+  refine ⟨(hi.stopped hs).2.2.1, ?_⟩
+  intro t ht x hx
+  by_cases h0 : (run c keep ops).stopped = true
+  · rw [((run_inv c keep ops).stopped h0).2.2.1] at ht; cases ht
+  · have hbody : run c keep (ops ++ [.stop]) = stopBody c keep (run c keep ops) := by
+      rw [run_snoc]; simp only [step]; rw [if_neg h0]
+    rw [hbody]
+    have hm := stop_toSend_mono c keep (run c keep ops) t ht
+    show x ∈ (drain c (stopBuf c keep (stopIn c keep (stopPeer c keep (run c keep ops))))).handed
+    unfold drain
+    exact (handAll_hands c _ _).1 x (List.mem_flatMap.mpr ⟨t, hm, hx⟩)
+
+/-- **accounting after `Stop`, any variant**: every accepted span is either handed to the
+transmission (and its trace is kept), discarded (its trace is dropped), thrown away unread from
+a closed `incoming` queue, or still sitting in a buffered, undecided trace. For the repaired
+collector the last two cases are empty (`stop_decides_all_fixed`). -/
+theorem stop_accounting_partial (ops : List Op) :
+    ∀ x ∈ (run c keep (ops ++ [.stop])).accepted,
+      (x ∈ (run c keep (ops ++ [.stop])).handed ∧ keep x.tid = true) ∨
+      (x ∈ (run c keep (ops ++ [.stop])).discarded ∧ keep x.tid = false) ∨
+      x ∈ (run c keep (ops ++ [.stop])).lost ∨
+      ∃ t ∈ (run c keep (ops ++ [.stop])).buf, x ∈ t.spans := by
+  have hi := run_inv c keep (ops ++ [.stop])
+  have hs : (run c keep (ops ++ [.stop])).stopped = true := by
+    rw [run_snoc]; exact stop_sets_stopped c keep _
+  obtain ⟨hq, hp, ht, _⟩ := hi.stopped hs
+  intro x hx
+  have hsw := hi.acc x hx
+  unfold Somewhere at hsw
+  rw [hq, hp, ht] at hsw
+  rcases hsw with ⟨_, h, _⟩ | ⟨_, h, _⟩ | h | ⟨_, h, _⟩ | h | h | h
+  · cases h
+  · cases h
+  · exact Or.inr (Or.inr (Or.inr h))
+  · cases h
+  · exact Or.inl ⟨h, hi.good.handed x h⟩
+  · exact Or.inr (Or.inl ⟨h, hi.good.disc x h⟩)
+  · exact Or.inr (Or.inr (Or.inl h))
+
+/-- **stop_flushes_batches** — every event the transmission accepted before `Stop` is in a
+dispatched batch afterwards and nothing is pending, and this stays true whatever happens later. -/
+theorem stop_flushes_batches (ops ops' : List Op) :
+    (run c keep (ops ++ [.txstop] ++ ops')).tx.pending = [] ∧
+    ∀ e ∈ (run c keep (ops ++ [.txstop])).tx.acc,
+      ∃ b ∈ (run c keep (ops ++ [.txstop] ++ ops')).tx.sent, e ∈ b.2 := by
+  have hst : (run c keep (ops ++ [.txstop])).tx.stopped = true := by
+    rw [run_snoc]; exact stop_stopped _
+  have hst' : (run c keep (ops ++ [.txstop] ++ ops')).tx.stopped = true := by
+    rw [run_append]
+    exact fold_tx c keep (fun t => t.stopped = true) (fun t d e h => enqueue_stopped c t d e h)
+      (fun t ns h => tick_stopped c t ns h) (fun t h => stop_keeps_stopped t h) ops' _ hst
+  have hinv := run_txinv c keep (ops ++ [.txstop] ++ ops')
+  have hp := hinv.stopped hst'
+  refine ⟨hp, ?_⟩
+  intro e he
+  -- the accepted list only grows
+  have hmono : e ∈ (run c keep (ops ++ [.txstop] ++ ops')).tx.acc := by
+    rw [run_append]
+    exact fold_tx c keep (fun t => e ∈ t.acc)
+      (fun t d e' h => by
+        unfold Tx.enqueue
+        split
+        · split <;> exact h
+        · split <;> exact List.mem_append_left _ h)
+      (fun t ns h => by unfold Tx.tick; split <;> exact h)
+      (fun t h => by unfold Tx.stop; split <;> exact h) ops' _ he
+  rcases hinv.acc e hmono with hb | ⟨p, hpm, _⟩
+  · exact hb
+  · rw [hp] at hpm; cases hpm
+
+/-- **enqueue_after_stop (transmission)** — `EnqueueEvent` on a stopped `DirectTransmission` never
+returns normally: the first call panics on the nil `eventBatches` map while holding
+`batchMutex`, which is never released, every later call blocks on that mutex for ever; the event
+is neither batched nor dispatched. -/
+theorem enqueue_after_stop_tx (t : Tx) (d e : Nat) (h : t.stopped = true) :
+    (t.enqueue c d e).2 = (if t.locked then EnqOut.blocked else EnqOut.panic) ∧
+    (t.enqueue c d e).1.locked = true ∧ (t.enqueue c d e).1.stopped = true ∧
+    (t.enqueue c d e).1.sent = t.sent ∧ (t.enqueue c d e).1.pending = t.pending ∧
+    (t.enqueue c d e).1.acc = t.acc := by
+  unfold Tx.enqueue
+  rw [if_pos h]
+  by_cases hl : t.locked = true
+  · rw [if_pos hl, if_pos hl]; exact ⟨rfl, hl, h, rfl, rfl, rfl⟩
+  · rw [if_neg hl, if_neg hl]; exact ⟨rfl, rfl, h, rfl, rfl, rfl⟩
+
+/-- in terms of histories: after `txstop`, however the run continues, an `ev` is answered by a panic or blocks -/
+theorem enqueue_after_stop_run (ops ops' : List Op) (sid dest : Nat) :
+    (step c keep (run c keep (ops ++ [.txstop] ++ ops')) (.ev sid dest)).2 = .enq .panic ∨
+    (step c keep (run c keep (ops ++ [.txstop] ++ ops')) (.ev sid dest)).2 = .enq .blocked := by
+  have hst : (run c keep (ops ++ [.txstop])).tx.stopped = true := by
+    rw [run_snoc]; exact stop_stopped _
+  have hst' : (run c keep (ops ++ [.txstop] ++ ops')).tx.stopped = true := by
+    rw [run_append]
+    exact fold_tx c keep (fun t => t.stopped = true) (fun t d e h => enqueue_stopped c t d e h)
+      (fun t ns h => tick_stopped c t ns h) (fun t h => stop_keeps_stopped t h) ops' _ hst
+  have := (enqueue_after_stop_tx c _ dest sid hst').1
+  simp only [step]
+  rw [this]
+  split
+  · exact Or.inr rfl
+  · exact Or.inl rfl
+
+/-- **enqueue_after_stop (collector)** — `AddSpan` on a stopped collector panics (send on a closed
+channel); the span is not accepted and nothing but the clock changes. -/
+theorem span_after_stop (s : St) (dt w : Nat) (peer : Bool) (sp : Span) (h : s.stopped = true) :
+    (step c keep s (.span dt w peer sp)).2 = .panic ∧
+    (step c keep s (.span dt w peer sp)).1 = { s with now := s.now + dt } := by
+  show (spanOp c keep s dt w peer sp).2 = .panic ∧ (spanOp c keep s dt w peer sp).1 = _
+  unfold spanOp
+  rw [if_pos h]
+  exact ⟨rfl, rfl⟩
+
+end partial_
+
+/-! ## `Agent.healthCheck` after `cancel()` -/
+
+/-- **healthCheck never exits** (code as it is): whatever sequence of cancellations and ticks the
+loop sees, it is still running — after `cancel()` the `ctx.Done()` case is always ready, so the
+goroutine spins. -/
+theorem healthcheck_never_exits (evs : List HcEv) : hcRun false evs = .running := by
+  unfold hcRun
+  induction evs with
+  | nil => rfl
+  | cons e l ih => cases e <;> exact ih
+
+theorem hc_exited_stays (fixed : Bool) (evs : List HcEv) : evs.foldl (hcStep fixed) .exited = .exited := by
+  induction evs with
+  | nil => rfl
+  | cons e l ih => exact ih
+
+/-- with `return` in the `ctx.Done()` case the loop ends at the first cancellation it sees -/
+theorem healthcheck_exits_fixed (evs : List HcEv) (h : HcEv.done ∈ evs) : hcRun true evs = .exited := by
+  unfold hcRun
+  induction evs with
+  | nil => cases h
+  | cons e l ih =>
+    cases e with
+    | done => exact hc_exited_stays true l
+    | tick =>
+      have : HcEv.done ∈ l := by simpa using h
+      exact ih this
+
+/-! Non-vacuity: concrete histories, evaluated by the kernel. -/
+-- a kept trace decided by a tick, forwarded by sendTraces, flushed by the transmission's Stop
+example : (run { tt := 5, sd := 2, mb := 3 } (fun _ => true)
+    [.span 1 0 false ⟨1, 1, 0, true⟩, .tick 3, .stop, .txstop]).tx.sent = [(0, [1])] := by decide
+-- decided but not yet forwarded when Stop is requested: Stop drains tracesToSend
+example : (run { tt := 5, sd := 2, mb := 3 } (fun _ => true)
+    [.span 1 0 false ⟨1, 1, 0, true⟩, .tick 3, .stop]).handed = [⟨1, 1, 0, true⟩] := by decide
+-- not yet due when Stop is requested: left in the buffer (code as it is)
+example : ((run { tt := 5, sd := 2, mb := 3 } (fun _ => true)
+    [.span 1 0 false ⟨1, 1, 0, true⟩, .tick 1, .stop]).buf.map (·.tid)) = [1] := by decide
+-- enqueue after the transmission's Stop: panic, then blocked
+example : ((step {} (fun _ => true) (run {} (fun _ => true) [.txstop]) (.ev 7 0)).2,
+    (step {} (fun _ => true) (run {} (fun _ => true) [.txstop, .ev 7 0]) (.ev 8 0)).2) =
+    (Out.enq .panic, Out.enq .blocked) := by decide
+-- a late span of a dropped trace is discarded, one of a kept trace goes straight to the transmission
+example : (run { tt := 5, sd := 2, mb := 9 } (fun t => t == 1)
+    [.span 1 0 false ⟨1, 1, 0, true⟩, .span 1 0 false ⟨2, 2, 0, true⟩, .tick 3, .span 1 0 false ⟨3, 1, 0, false⟩,
+     .span 1 0 false ⟨4, 2, 0, false⟩]).handed = [⟨3, 1, 0, false⟩] := by decide
 
 end Refinery.Props.C36
